@@ -103,6 +103,8 @@ type mutator struct {
 	// clock: logical mtime for files the mutator rewrites (starts 90 s before the base index, +1 s per use), so that
 	// whether a rewritten file is older than the index never depends on kernel timestamp ticks
 	clock time.Time
+	// ignoredTrackedDirs counts the "ignored directory with tracked files + ancestor negation" constructions
+	ignoredTrackedDirs int
 }
 
 func (m *mutator) stamp(full string) {
@@ -136,7 +138,7 @@ func (m *mutator) worktreeRound(n int) {
 	paths := m.tree.Paths()
 	idxTime := modTime(filepath.Join(m.dir, ".git", "index"))
 	for i := 0; i < n; i++ {
-		switch k := r.Intn(14); {
+		switch k := r.Intn(16); {
 		case k <= 1 && len(paths) > 0: // size-changing edit
 			p := paths[r.Intn(len(paths))]
 			full := filepath.Join(m.dir, p)
@@ -287,6 +289,51 @@ func (m *mutator) worktreeRound(n int) {
 				m.stamp(filepath.Join(m.dir, p))
 				m.note(p, "untracked-symlink")
 			}
+		case k >= 14: // an ignored directory that holds tracked files + an ancestor-scope negation naming an untracked file inside it
+			ds := twin.Dirs(m.tree)
+			if len(ds) == 0 {
+				continue
+			}
+			d := ds[r.Intn(len(ds))]
+			if fi, err := os.Lstat(filepath.Join(m.dir, d)); err != nil || !fi.IsDir() {
+				continue
+			}
+			parent, base := "", d
+			if i := strings.LastIndexByte(d, '/'); i >= 0 {
+				parent, base = d[:i], d[i+1:]
+			}
+			var file, rule, neg string
+			switch r.Intn(3) {
+			case 0: // the parent directory's own .gitignore (the root one for top-level directories)
+				file = filepath.Join(m.dir, parent, ".gitignore")
+				rule = []string{base + "/", "/" + base + "/", base}[r.Intn(3)]
+				neg = []string{"!" + base + "/notes.md", "!*.md", "!" + base + "/*.md"}[r.Intn(3)]
+			case 1: // .git/info/exclude, paths relative to the root
+				os.MkdirAll(filepath.Join(m.dir, ".git", "info"), 0o755)
+				file = filepath.Join(m.dir, ".git", "info", "exclude")
+				rule = []string{d + "/", "/" + d + "/"}[r.Intn(2)]
+				neg = []string{"!" + d + "/notes.md", "!*.md"}[r.Intn(2)]
+			default: // root .gitignore, two or more levels above a nested directory
+				file = filepath.Join(m.dir, ".gitignore")
+				rule = []string{"/" + d + "/", d + "/"}[r.Intn(2)]
+				neg = []string{"!" + d + "/notes.md", "!*.md", "!/" + d + "/notes.md"}[r.Intn(3)]
+			}
+			f, err := os.OpenFile(file, os.O_APPEND|os.O_CREATE|os.O_WRONLY, 0o644)
+			if err != nil {
+				continue
+			}
+			f.WriteString(rule + "\n" + neg + "\n")
+			f.Close()
+			for _, n := range []string{"notes.md", "other.tmp"} {
+				full := filepath.Join(m.dir, d, n)
+				if _, err := os.Lstat(full); err != nil {
+					os.WriteFile(full, []byte("untracked in an ignored directory that holds tracked files\n"), 0o644)
+					m.stamp(full)
+				}
+			}
+			m.note(d+"/notes.md", "negated-untracked-in-ignored-tracked-dir")
+			m.feat[d+"/other.tmp"] = "untracked-in-ignored-tracked-dir"
+			m.ignoredTrackedDirs++
 		case k == 13 && len(paths) > 0: // touch only (mtime changes, content same)
 			p := paths[r.Intn(len(paths))]
 			full := filepath.Join(m.dir, p)
@@ -667,6 +714,7 @@ func run(c *vf.Ctx) {
 					c.Fail(key, fmt.Sprintf("path %q: git status %q, go-git %q (filemode=%v, racy=%v; last mutation of the path: %s)", d.path, d.git, d.gogit, fileMode, racy, m.feature(d.path, fileMode)), rr)
 				}
 			}
+			c.Count("ignored_dirs_holding_tracked_files_with_ancestor_negation", m.ignoredTrackedDirs)
 			os.RemoveAll(D)
 		}
 	})
@@ -676,6 +724,7 @@ func run(c *vf.Ctx) {
 	c.Floor("paths compared", c.Counter("paths_compared"), c.N(1500, 20000))
 	c.Floor("distinct XY codes seen in git's answers", c.SeenCount("xy_codes"), c.N(9, 11))
 	c.Floor("mutation kinds", c.SeenCount("mutation_kinds"), 18)
+	c.Floor("ignored directories holding tracked files with an ancestor-scope negation for an untracked file inside", c.Counter("ignored_dirs_holding_tracked_files_with_ancestor_negation"), c.N(25, 400))
 	c.Assume("git's type-change code T is compared as M: go-git's StatusCode has no T")
 	c.Assume("rename detection is off on both sides (--no-renames); ignored files are not listed (--ignored=no)")
 	c.Assume("a path staged as deleted that still exists on disk gets two git records (D and ??): folded to staging D, worktree ?")
